@@ -1,4 +1,5 @@
 import KoordVerif.Model.C13
+import KoordVerif.Model.C13Handle
 /-
 C13 — property theorems (DESIGN.md §4 C13).  Quantities are nano-unit integers; CPU amounts
 "in milli-cores" are `milliValue q` (round up, as Quantity.MilliValue()).
@@ -1118,5 +1119,346 @@ theorem pod_amounts_kept (k : Ranges) (p : Pod) (h : IsTier (pcWithDefault k p))
     (mutatePodResourceSpec k p).overhead = p.overhead.map (replaceBoth (pcWithDefault k p)) := by
   rw [mutate_tier_form k p h]
   exact ⟨rfl, rfl, rfl⟩
+
+/-! ## the entry points: what the API server stores, which requests are validated (Model/C13Handle.lean) -/
+
+/-! ### 9. the `mutated` flags are sound: a step that reports "not mutated" left the pod as it was -/
+
+theorem replaceBoth_flag_sound (pc : PC) (l : RL) (h : replaceBothFlag pc l = false) : replaceBoth pc l = l := by
+  by_cases ht : IsTier pc
+  · have hc : l Res.cpu = none := by
+      rcases ht with rfl | rfl <;> simp_all [replaceBothFlag, replaceFlag, resourceNameMap]
+    have hm : l Res.memory = none := by
+      rcases ht with rfl | rfl <;> simp_all [replaceBothFlag, replaceFlag, resourceNameMap, replaceAndErase]
+    exact replaceBoth_noop pc l hc hm
+  · cases pc <;> simp_all [IsTier, replaceBoth, replaceAndErase, resourceNameMap]
+
+theorem restrict_flag_sound (pc : PC) (c : Ctr) (r : Res) (h : restrictFlag pc c r = false) : restrict pc c r = c := by
+  unfold restrictFlag at h
+  unfold restrict
+  split
+  · rfl
+  · rename_i e he
+    rw [he] at h
+    simp only [] at h
+    cases hr : c.req e <;> cases hl : c.lim e <;> simp_all
+
+theorem mutateCtr_flag_sound (pc : PC) (c : Ctr) (h : mutateCtrFlag pc c = false) : mutateCtr pc c = c := by
+  unfold mutateCtrFlag at h
+  simp only [Bool.or_eq_false_iff] at h
+  obtain ⟨⟨⟨h1, h2⟩, h3⟩, h4⟩ := h
+  have ht : translated pc c = c := by
+    unfold translated
+    rw [replaceBoth_flag_sound pc _ h1, replaceBoth_flag_sound pc _ h2]
+  unfold mutateCtr
+  rw [ht] at h3 h4 ⊢
+  rw [restrict_flag_sound pc c _ h3] at h4 ⊢
+  exact restrict_flag_sound pc c _ h4
+
+theorem map_flag_sound (pc : PC) (cs : List Ctr) (h : cs.any (mutateCtrFlag pc) = false) : cs.map (mutateCtr pc) = cs := by
+  induction cs with
+  | nil => rfl
+  | cons c cs ih =>
+    simp only [List.any_cons, Bool.or_eq_false_iff] at h
+    simp only [List.map_cons, mutateCtr_flag_sound pc c h.1, ih h.2]
+
+/-- mutatePodResourceSpec reports `false` only if it changed nothing. -/
+theorem mutatePodResourceSpec_flag_sound (k : Ranges) (p : Pod) (h : mutatePodResourceSpecFlag k p = false) :
+    mutatePodResourceSpec k p = p := by
+  unfold mutatePodResourceSpecFlag at h
+  unfold mutatePodResourceSpec
+  simp only [] at h ⊢
+  split
+  · rfl
+  · rename_i hn
+    rw [if_neg hn] at h
+    simp only [Bool.or_eq_false_iff] at h
+    obtain ⟨⟨h1, h2⟩, h3⟩ := h
+    rw [map_flag_sound _ _ h1, map_flag_sound _ _ h2]
+    have ho : p.overhead.map (replaceBoth (pcWithDefault k p)) = p.overhead := by
+      cases hov : p.overhead with
+      | none => rfl
+      | some o => rw [hov] at h3; simp only [Option.map_some, replaceBoth_flag_sound _ _ h3]
+    rw [ho]
+
+theorem applyProfiles_all_skipped (rand : Int) (ms : List Profile) (p : Pod)
+    (h : ms.any (fun pr => !shouldSkipProfile rand pr) = false) : applyProfiles rand ms p = p := by
+  unfold applyProfiles
+  induction ms generalizing p with
+  | nil => rfl
+  | cons m ms ih =>
+    simp only [List.any_cons, Bool.or_eq_false_iff, Bool.not_eq_false'] at h
+    simp only [List.foldl_cons, h.1, if_true]
+    exact ih p h.2
+
+/-- clusterColocationProfileMutatingPod reports `false` only if it changed nothing (every operation, every
+    profile list, gate and draw). -/
+theorem colocation_flag_sound (k : Ranges) (create gate : Bool) (rand : Int) (ps : List Profile) (p : Pod)
+    (h : (colocationMutate k create gate rand ps p).2 = false) : (colocationMutate k create gate rand ps p).1 = p := by
+  unfold colocationMutate at h ⊢
+  cases create
+  · rfl
+  · simp only [Bool.not_true, Bool.false_eq_true, if_false] at h ⊢
+    generalize sortProfiles (ps.filter (·.matched)) = ms at h ⊢
+    by_cases he : ms.isEmpty = true
+    · rw [if_pos he]
+    · rw [if_neg he] at h ⊢
+      by_cases hs : (ms.any (·.skipRes) || gate) = true
+      · rw [if_pos hs] at h ⊢
+        exact applyProfiles_all_skipped rand ms p h
+      · rw [if_neg hs] at h ⊢
+        simp only [Bool.or_eq_false_iff] at h
+        show mutatePodResourceSpec k (applyProfiles rand ms p) = p
+        rw [applyProfiles_all_skipped rand ms p h.1] at h ⊢
+        exact mutatePodResourceSpec_flag_sound k p h.2
+
+/-- the pod of mutateByExtendedResources does not depend on its flag ... -/
+theorem mutateByExtFlag_fst (p : Pod) : (mutateByExtFlag p).map Prod.fst = mutateByExt p := by
+  unfold mutateByExtFlag mutateByExt
+  cases p.annot with
+  | malformed => rfl
+  | absent => simp only []; split <;> rfl
+  | spec old => simp only []; split <;> rfl
+
+/-- ... and the flag is `false` only if the pod is unchanged. -/
+theorem ext_flag_sound (p p' : Pod) (h : mutateByExtFlag p = some (p', false)) : p' = p := by
+  unfold mutateByExtFlag at h
+  simp only [] at h
+  split at h
+  · cases h
+  · split at h
+    · cases h; rfl
+    · cases h
+  · split at h
+    · cases h; rfl
+    · cases h
+
+/-! ### 10. what the API server stores -/
+
+/-- the envelope of a plain pod CREATE -/
+def Envelope.isCreate (e : Envelope) : Prop := e.op = .create ∧ e.subresource = false ∧ e.isPods = true ∧ e.hasObject = true
+
+/-- `mutated`-flag bookkeeping never loses a change: for a pod CREATE the stored pod (Handle's JSON patch applied to the
+    submitted pod) IS the pod computed by the admission steps, whatever the flags say; a failing step rejects the
+    request. -/
+theorem handle_stores_admitted (k : Ranges) (e : Envelope) (he : e.isCreate) (gate : Bool) (rand : Int) (ps : List Profile) (p : Pod) :
+    handleMutating k e gate rand ps p = if colocationFails true rand ps then none else admitCreate k gate rand ps p := by
+  obtain ⟨h1, h2, h3, h4⟩ := he
+  unfold handleMutating shouldIgnore handleCreate admitCreate
+  simp only [h1, h2, h3, h4, Bool.not_true, Bool.or_false, Bool.false_eq_true, if_false]
+  by_cases hf : colocationFails true rand ps = true
+  · simp [hf]
+  · have hf' : colocationFails true rand ps = false := by simpa using hf
+    simp only [hf', Bool.false_eq_true, if_false]
+    have hfst := mutateByExtFlag_fst (colocationMutate k true gate rand ps p).1
+    cases hx : mutateByExtFlag (colocationMutate k true gate rand ps p).1 with
+    | none =>
+      rw [hx] at hfst
+      simp only [Option.map_none] at hfst
+      exact hfst
+    | some pm =>
+      obtain ⟨p2, m2⟩ := pm
+      rw [hx] at hfst
+      simp only [Option.map_some] at hfst
+      rw [← hfst]
+      simp only []
+      by_cases hm : ((colocationMutate k true gate rand ps p).2 || m2) = true
+      · rw [if_pos hm]
+      · rw [if_neg hm]
+        simp only [Bool.not_eq_true, Bool.or_eq_false_iff] at hm
+        obtain ⟨hm1, hm2⟩ := hm
+        subst hm2
+        rw [ext_flag_sound _ _ hx, colocation_flag_sound k true gate rand ps p hm1]
+
+/-- every other request leaves the submitted pod as it is (UPDATE: handleUpdate does nothing; DELETE / CONNECT;
+    sub-resources; foreign resources) or is rejected for want of an object. -/
+theorem handle_non_create_stores_submitted (k : Ranges) (e : Envelope) (gate : Bool) (rand : Int) (ps : List Profile) (p p' : Pod)
+    (hne : e.op ≠ .create ∨ e.subresource = true ∨ e.isPods = false)
+    (h : handleMutating k e gate rand ps p = some p') : p' = p := by
+  unfold handleMutating shouldIgnore at h
+  split at h
+  · cases h; rfl
+  · rename_i hi
+    simp only [Bool.or_eq_true, Bool.not_eq_true', not_or, Bool.not_eq_true, Bool.not_eq_false] at hi
+    split at h
+    · cases h
+    · cases ho : e.op with
+      | create => rcases hne with h1 | h1 | h1 <;> simp_all
+      | update => rw [ho] at h; cases h; rfl
+      | delete => rw [ho] at h; cases h; rfl
+      | connect => rw [ho] at h; cases h; rfl
+
+/-- 4 (stored object). a pod CREATE matched by a profile (no skip annotation, gate off) whose class after the profiles
+    is mid or batch is STORED without native cpu / memory in any container, init container or the overhead — also when
+    every matching profile is switched off by its probability. -/
+theorem stored_native_erased (k : Ranges) (e : Envelope) (he : e.isCreate) (rand : Int) (ps : List Profile) (p p' : Pod)
+    (hm : (sortProfiles (ps.filter (·.matched))).isEmpty = false)
+    (hs : (sortProfiles (ps.filter (·.matched))).any (·.skipRes) = false)
+    (ht : IsTier (pcWithDefault k (applyProfiles rand (sortProfiles (ps.filter (·.matched))) p)))
+    (h : handleMutating k e false rand ps p = some p') :
+    (∀ c ∈ p'.ctrs ++ p'.inits, c.req Res.cpu = none ∧ c.req Res.memory = none ∧ c.lim Res.cpu = none ∧ c.lim Res.memory = none) ∧
+    (∀ o, p'.overhead = some o → o Res.cpu = none ∧ o Res.memory = none) := by
+  rw [handle_stores_admitted k e he] at h
+  split at h
+  · cases h
+  · unfold admitCreate at h
+    rw [colocationMutate_create_fst] at h
+    simp only [hm, hs, Bool.false_eq_true, if_false, Bool.or_false] at h
+    obtain ⟨a, rfl⟩ := mutateByExt_form _ _ h
+    exact pod_native_erased k _ ht
+
+/-- 3 (stored object). ... and its containers are, position by position, the translations of the containers the
+    profiles produced (so `container_amounts_kept` applies to each stored container). -/
+theorem stored_amounts_kept (k : Ranges) (e : Envelope) (he : e.isCreate) (rand : Int) (ps : List Profile) (p p' : Pod)
+    (hm : (sortProfiles (ps.filter (·.matched))).isEmpty = false)
+    (hs : (sortProfiles (ps.filter (·.matched))).any (·.skipRes) = false)
+    (ht : IsTier (pcWithDefault k (applyProfiles rand (sortProfiles (ps.filter (·.matched))) p)))
+    (h : handleMutating k e false rand ps p = some p') :
+    let q := applyProfiles rand (sortProfiles (ps.filter (·.matched))) p
+    p'.ctrs = q.ctrs.map (mutateCtr (pcWithDefault k q)) ∧ p'.inits = q.inits.map (mutateCtr (pcWithDefault k q)) ∧
+    p'.overhead = q.overhead.map (replaceBoth (pcWithDefault k q)) ∧
+    p'.labels = q.labels ∧ p'.priority = q.priority := by
+  rw [handle_stores_admitted k e he] at h
+  split at h
+  · cases h
+  · unfold admitCreate at h
+    rw [colocationMutate_create_fst] at h
+    simp only [hm, hs, Bool.false_eq_true, if_false, Bool.or_false] at h
+    obtain ⟨a, rfl⟩ := mutateByExt_form _ _ h
+    obtain ⟨h1, h2, h3⟩ := pod_amounts_kept k _ ht
+    obtain ⟨_, _, h4, h5, _⟩ := mutate_keeps_shape k (applyProfiles rand (sortProfiles (ps.filter (·.matched))) p)
+    exact ⟨h1, h2, h3, h4, h5⟩
+
+/-- 6 (stored object). the summary annotation of the stored pod matches the stored spec: storing is admitting. -/
+theorem stored_is_admitted (k : Ranges) (e : Envelope) (he : e.isCreate) (gate : Bool) (rand : Int) (ps : List Profile) (p p' : Pod)
+    (h : handleMutating k e gate rand ps p = some p') : admitCreate k gate rand ps p = some p' := by
+  rw [handle_stores_admitted k e he] at h
+  split at h
+  · cases h
+  · exact h
+
+/-! ### 11. the validating entry point -/
+
+/-- which requests validatingPodFn hands to the validators -/
+def Envelope.validated (e : Envelope) : Prop :=
+  e.subresource = false ∧ e.isPods = true ∧ e.hasObject = true ∧ (e.op = .update → e.hasOld = true) ∧
+  (e.op = .delete → e.hasOld = true)
+
+/-- deletionTimestamp on either object, finalizers and "status only" decide nothing. -/
+theorem handleValidating_shape_irrelevant (k : Ranges) (e : Envelope) (s s' : ObjShape) (gate : Bool) (old new : Pod) :
+    handleValidating k e s gate old new = handleValidating k e s' gate old new := rfl
+
+/-- a validated pod UPDATE is admitted iff the full decision table admits it — in particular also when both objects
+    are terminating. -/
+theorem handle_update_iff (k : Ranges) (e : Envelope) (s : ObjShape) (gate : Bool) (old new : Pod)
+    (hv : e.validated) (hu : e.op = .update) :
+    handleValidating k e s gate old new = true ↔ Admissible k gate 1 old new := by
+  obtain ⟨h1, h2, h3, h4, _⟩ := hv
+  unfold handleValidating shouldIgnore
+  simp only [h1, h2, h3, h4 hu, hu, Bool.not_true, Bool.or_false, Bool.false_eq_true, if_false, reduceCtorEq, and_false]
+  exact admit_iff k gate 1 old new
+
+theorem handle_create_iff (k : Ranges) (e : Envelope) (s : ObjShape) (gate : Bool) (old new : Pod)
+    (hv : e.validated) (hc : e.op = .create) :
+    handleValidating k e s gate old new = true ↔ Admissible k gate 0 old new := by
+  obtain ⟨h1, h2, h3, _, _⟩ := hv
+  unfold handleValidating shouldIgnore
+  simp only [h1, h2, h3, hc, Bool.not_true, Bool.or_false, Bool.false_eq_true, if_false, reduceCtorEq, false_and]
+  exact admit_iff k gate 0 old new
+
+/-- "QoS and priority class never change on update", at the entry point, for every object shape. -/
+theorem handle_update_immutable (k : Ranges) (e : Envelope) (s : ObjShape) (gate : Bool) (old new : Pod)
+    (hv : e.validated) (hu : e.op = .update) (h : handleValidating k e s gate old new = true) :
+    qosRaw new = qosRaw old ∧ pcRaw k new = pcRaw k old := by
+  have ha := (handle_update_iff k e s gate old new hv hu).mp h
+  unfold Admissible at ha
+  exact ⟨(ha.2.2.2 rfl).1, (ha.2.2.2 rfl).2.1⟩
+
+/-- requests that are NOT validated are admitted unconditionally (sub-resources such as pods/status and
+    pods/ephemeralcontainers, foreign resources, DELETE without an old object) — this is the unchanged tree's dispatch,
+    stated so that it is visible. -/
+theorem handle_ignored_admitted (k : Ranges) (e : Envelope) (s : ObjShape) (gate : Bool) (old new : Pod)
+    (h : e.subresource = true ∨ e.isPods = false ∨ (e.op = .delete ∧ e.hasOld = false)) :
+    handleValidating k e s gate old new = true := by
+  unfold handleValidating shouldIgnore
+  rcases h with h | h | ⟨h1, h2⟩
+  · simp [h]
+  · simp [h]
+  · simp [h1, h2]
+
+/-! ### 12. spec.probability -/
+
+theorem digitsVal_append (ds : List Nat) (b : Nat) : digitsVal (ds ++ [b]) = digitsVal ds * 10 + (b - 48) := by
+  unfold digitsVal
+  rw [List.foldl_append]
+  rfl
+
+/-- an int-typed probability is taken as it is; "0%" and "100%" are 0 and 100; a text without '%' is an error. -/
+theorem scaledPercent_examples :
+    scaledPercent (.int 37) = some 37 ∧ scaledPercent (.str [48, 37]) = some 0 ∧ scaledPercent (.str [49, 48, 48, 37]) = some 100 ∧
+    scaledPercent (.str [53, 48, 37]) = some 50 ∧ scaledPercent (.str [53, 48]) = none ∧ scaledPercent (.str [37]) = none ∧
+    scaledPercent (.str [104, 97, 108, 102]) = none ∧ scaledPercent (.str [45, 53, 37]) = some (-5) := by decide
+
+/-- a probability that parses to 0 switches the profile off for every draw, 100 (and an absent probability) applies
+    it for every draw; a text that is no percentage is an error for every draw. -/
+theorem probability_gate (pr : Profile) (v : Option IntOrStr) (rand : Int) :
+    ((probFields v).1 = some 0 → shouldSkipProfile rand (pr.withProbability v) = true) ∧
+    ((probFields v).1 = some 100 ∨ v = none → shouldSkipProfile rand (pr.withProbability v) = false) ∧
+    ((probFields v).2 = true ↔ ∃ x, v = some x ∧ scaledPercent x = none) := by
+  refine ⟨?_, ?_, ?_⟩
+  · intro h
+    simp [shouldSkipProfile, Profile.withProbability, h]
+  · intro h
+    rcases h with h | h
+    · simp [shouldSkipProfile, Profile.withProbability, h]
+    · subst h; simp [shouldSkipProfile, Profile.withProbability, probFields]
+  · cases v with
+    | none => simp [probFields]
+    | some x =>
+      cases hx : scaledPercent x <;> simp [probFields, hx]
+
+/-! ### non-vacuity of 9–12 -/
+
+/-- a matching profile that is switched off (probability "0%") -/
+def offProfile : Profile :=
+  ({ name := 1, matched := true, skipRes := false, prob := none, qos := some (qosName QoS.be), priority := some 5500,
+     subPrio := none } : Profile).withProbability (some (.str [48, 37]))
+
+def plainCreate : Envelope := { op := .create, subresource := false, isPods := true, hasObject := true, hasOld := false }
+
+example : plainCreate.isCreate := by unfold Envelope.isCreate; decide
+
+/-- a mid pod (priority 7500) admitted by a matching but switched-off profile: no profile is applied, the colocation
+    step still reports mutated (translation), and the STORED pod carries mid-cpu instead of cpu. -/
+example : shouldSkipProfile 0 offProfile = true ∧
+    (colocationMutate stdRanges true false 0 [offProfile] (exPod QoS.ls 7500)).2 = true ∧
+    ∃ p', handleMutating stdRanges plainCreate false 0 [offProfile] (exPod QoS.ls 7500) = some p' ∧
+      p'.priority = some 7500 ∧ p'.ctrs.map (fun c => (c.req Res.cpu, c.req Res.midCPU)) = [(none, some 1000000000)] :=
+  ⟨by decide, by decide, _, rfl, by decide⟩
+
+/-- the hypotheses of stored_native_erased hold there -/
+example : (sortProfiles ([offProfile].filter (·.matched))).isEmpty = false ∧
+    (sortProfiles ([offProfile].filter (·.matched))).any (·.skipRes) = false ∧
+    IsTier (pcWithDefault stdRanges (applyProfiles 0 (sortProfiles ([offProfile].filter (·.matched))) (exPod QoS.ls 7500))) := by
+  refine ⟨by decide, by decide, Or.inr ?_⟩
+  decide
+
+/-- a prod pod with a switched-off profile: nothing is mutated, the flag is false, the submitted pod is stored. -/
+example : (colocationMutate stdRanges true false 0 [offProfile] (exPod QoS.ls 9500)).2 = false ∧
+    (mutateByExtFlag (exPod QoS.ls 9500)).map Prod.snd = some false := by decide
+
+/-- an UPDATE of a terminating pod (both objects carry a deletionTimestamp) that turns a prod LS pod into BE, or a BE pod
+    into LSR, or moves the class from batch to mid, is rejected; the same update with nothing changed is admitted. -/
+def plainUpdate : Envelope := { op := .update, subresource := false, isPods := true, hasObject := true, hasOld := true }
+def terminating : ObjShape := { oldDeleting := true, newDeleting := true, finalizers := true, statusOnly := false }
+
+example : plainUpdate.validated := by unfold Envelope.validated; decide
+
+example :
+    handleValidating stdRanges plainUpdate terminating false (exPod QoS.ls 5500) (exPod QoS.be 5500) = false ∧
+    handleValidating stdRanges plainUpdate terminating false (exPod QoS.be 5500) (exPod QoS.be 7500) = false ∧
+    handleValidating stdRanges plainUpdate terminating false (exPod QoS.be 5500) (exPod QoS.be 5500) = true ∧
+    handleValidating stdRanges { plainUpdate with subresource := true } terminating false (exPod QoS.ls 5500) (exPod QoS.be 5500) = true := by
+  decide
 
 end KoordVerif.C13
